@@ -60,7 +60,11 @@ type aEnv struct {
 	cm   *connManager
 	priv [32]byte
 	pub  [32]byte
-	mu   sync.Mutex
+	// a second station key pair: the station supports several keys (key rotation); a client may have
+	// been built with the public key of any of them
+	priv2 [32]byte
+	pub2  [32]byte
+	mu    sync.Mutex
 	anns []aAnn
 	cov  *aCovert
 }
@@ -111,7 +115,18 @@ func aNewEnv(tb testing.TB) *aEnv {
 		tb.Fatalf("harness problem: %v", err)
 	}
 	copy(e.pub[:], pub)
-	pt, err := prefix.Default([][32]byte{e.priv})
+	for i := range e.priv2 {
+		e.priv2[i] = byte(i*13 + 7)
+	}
+	e.priv2[0] &= 248
+	e.priv2[31] &= 127
+	e.priv2[31] |= 64
+	pub2, err := curve25519.X25519(e.priv2[:], curve25519.Basepoint)
+	if err != nil {
+		tb.Fatalf("harness problem: %v", err)
+	}
+	copy(e.pub2[:], pub2)
+	pt, err := prefix.Default([][32]byte{e.priv, e.priv2})
 	if err != nil {
 		tb.Fatalf("harness problem: prefix.Default: %v", err)
 	}
@@ -259,6 +274,15 @@ func (c *aCapture) SetWriteDeadline(time.Time) error { return nil }
 // aFlight returns the first flight the real client transport writes for (secret, transport,
 // prefix id, flush policy), as the list of writes it made (flush boundaries).
 func (e *aEnv) aFlight(secret []byte, tt pb.TransportType, prefixID int32, flush int32) ([][]byte, error) {
+	return e.aFlightKey(secret, tt, prefixID, flush, 0)
+}
+
+// aFlightKey is aFlight for a client that was built with station key number `key` (0 or 1).
+func (e *aEnv) aFlightKey(secret []byte, tt pb.TransportType, prefixID int32, flush int32, key int) ([][]byte, error) {
+	stationPub := e.pub
+	if key == 1 {
+		stationPub = e.pub2
+	}
 	keys, err := core.GenSharedKeys(uint(core.CurrentClientLibraryVersion()), secret, tt)
 	if err != nil {
 		return nil, err
@@ -267,7 +291,7 @@ func (e *aEnv) aFlight(secret []byte, tt pb.TransportType, prefixID int32, flush
 	switch tt {
 	case pb.TransportType_Min:
 		ct := &min.ClientTransport{}
-		if err := ct.PrepareKeys(e.pub, secret, keys.TransportReader); err != nil {
+		if err := ct.PrepareKeys(stationPub, secret, keys.TransportReader); err != nil {
 			return nil, err
 		}
 		if _, err := ct.WrapConn(cc); err != nil {
@@ -278,7 +302,7 @@ func (e *aEnv) aFlight(secret []byte, tt pb.TransportType, prefixID int32, flush
 		if err := ct.SetParams(&prefix.ClientParams{PrefixID: prefixID, FlushPolicy: flush}); err != nil {
 			return nil, err
 		}
-		if err := ct.PrepareKeys(e.pub, secret, keys.TransportReader); err != nil {
+		if err := ct.PrepareKeys(stationPub, secret, keys.TransportReader); err != nil {
 			return nil, err
 		}
 		if _, err := ct.WrapConn(cc); err != nil {
